@@ -392,7 +392,7 @@ def parseDOps : List String → Option (List Dag.DOp)
 
 def stepLine (st : St) (toks : List String) : St × String :=
   match toks with
-  | ["sm", n] =>
+  | "sm" :: n :: _ =>      -- an optional third token `debug` (deadlock-detector goroutines on) does not change the protocol
     match n.toNat? with
     | some n => (.sm [(Mx.init, List.replicate n (Th.new []))], "ok")
     | none => (st, "bad-op")
